@@ -97,6 +97,8 @@ func runC16(w *World, r *Report, tier string) {
 	unresolvedSeeds(w, r)
 	ruleGoShared(w, r)
 	rulePoolReset(w, r)
+	rulePoolUseAfterPut(w, r)
+	ruleHashKey(w, r)
 	r.Rule("EFFECT-PARAM", "no exported function (setters excepted) writes memory reachable from its arguments, directly or through callees (stores through index/field addresses, copy, in-place sorts, appends into a caller's spare capacity)")
 	e := effectsFor(w)
 	for _, f := range append(w.ExportedRoots(), canaryFuncs(w)...) {
